@@ -728,7 +728,7 @@ class _ActionSubCommands(_SubParsersAction):
                 )
 
         # Remove extra subcommand settings
-        if subcommand and len(subcommand_keys) > 1:
+        if subcommand:
             for key in [k for k in subcommand_keys if k != subcommand]:
                 del cfg[prefix + key]
 
